@@ -135,6 +135,7 @@ Qed.
 Definition lower {A : Type} (f : A -> el_out) (r : mres A) : option (list key * el_out) :=
   match r with MOk h v => Some (h, f v) | MRaise _ _ => None end.
 Definition out_none (_ : unit) : el_out := OutNone.
+Definition out_str (_ : pystr) : el_out := OutStr.
 
 (* what the two methods that lean on the library need from it *)
 Definition lib_sane (L : heaplib) : Prop :=
@@ -179,10 +180,10 @@ Ltac unf_all :=
   cbv beta iota zeta delta
     [gen_EventListHeap___init__ gen_EventListHeap_size gen_EventListHeap_is_empty gen_EventListHeap_add
      gen_EventListHeap_contains gen_EventListHeap_peek_first gen_EventListHeap_pop_first
-     gen_EventListHeap_remove gen_EventListHeap_clear
+     gen_EventListHeap_remove gen_EventListHeap_clear gen_EventListHeap___str__ gen_EventListHeap___repr__
      gen_SimEvent_time gen_SimEvent_priority gen_SimEvent_id sev_key
      impl_new impl_add impl_remove impl_pop_first impl_peek_first impl_contains_op impl_size impl_is_empty
-     impl_clear impl_step impl_contains mbind lower out_none negb andb orb].
+     impl_clear impl_str impl_repr impl_step impl_contains mbind lower out_none out_str negb andb orb].
 (* a non-empty list from which the library pops nothing: excluded by the hypothesis on hpop *)
 Ltac pop_contra :=
   match goal with
@@ -235,6 +236,15 @@ Theorem gen_EventListHeap_clear_eq : forall L h,
   lower out_none (gen_EventListHeap_clear L h) = Some (impl_clear L h).
 Proof. intros L h. el_solve. Qed.
 
+(* str(el), repr(el): the translator has checked that the bodies only build a string from the list *)
+Theorem gen_EventListHeap_str_eq : forall L h,
+  lower out_str (gen_EventListHeap___str__ L h) = Some (impl_str L h).
+Proof. intros L h. el_solve. Qed.
+
+Theorem gen_EventListHeap_repr_eq : forall L h,
+  lower out_str (gen_EventListHeap___repr__ L h) = Some (impl_repr L h).
+Proof. intros L h. el_solve. Qed.
+
 (* ---------------------------------------------------------------------- *)
 (* one operation, a whole history                                          *)
 (* ---------------------------------------------------------------------- *)
@@ -248,11 +258,13 @@ Definition gen_step (L : heaplib) (h : list key) (op : el_op) : option (list key
   | OpSize => lower OutNat (gen_EventListHeap_size L h)
   | OpIsEmpty => lower OutBool (gen_EventListHeap_is_empty L h)
   | OpClear => lower out_none (gen_EventListHeap_clear L h)
+  | OpStr => lower out_str (gen_EventListHeap___str__ L h)
+  | OpRepr => lower out_str (gen_EventListHeap___repr__ L h)
   end.
 
 Theorem gen_step_eq : forall L, lib_sane L -> forall h op, gen_step L h op = Some (impl_step L h op).
 Proof.
-  intros L [Hp Hh] h op. destruct op as [k | k | | | k | | |]; cbn [gen_step].
+  intros L [Hp Hh] h op. destruct op as [k | k | | | k | | | | |]; cbn [gen_step].
   - rewrite gen_EventListHeap_add_eq, sev_key_key_sev. reflexivity.
   - rewrite gen_EventListHeap_remove_eq, sev_key_key_sev. reflexivity.
   - rewrite (gen_EventListHeap_pop_first_eq L Hp). reflexivity.
@@ -261,6 +273,8 @@ Proof.
   - rewrite gen_EventListHeap_size_eq. reflexivity.
   - rewrite gen_EventListHeap_is_empty_eq. reflexivity.
   - rewrite gen_EventListHeap_clear_eq. reflexivity.
+  - rewrite gen_EventListHeap_str_eq. reflexivity.
+  - rewrite gen_EventListHeap_repr_eq. reflexivity.
 Qed.
 
 Fixpoint gen_run (L : heaplib) (h : list key) (ops : list el_op) : option (list key * list el_out) :=
@@ -317,6 +331,15 @@ Theorem gen_heapq_event_list_refines_sorted_multiset : forall ops,
   end.
 Proof. exact (gen_event_list_refines_sorted_multiset heapq heapq_contract). Qed.
 
+(* observers leave the list as it is -- for the generated methods *)
+Theorem gen_observers_leave_list_unchanged : forall L, lib_sane L -> forall h op,
+  is_observer op = true ->
+  match gen_step L h op with Some (h', _) => h' = h | None => False end.
+Proof.
+  intros L S h op O. rewrite (gen_step_eq L S).
+  pose proof (impl_observer_unchanged L h op O) as E. destruct (impl_step L h op) as [h' o]. exact E.
+Qed.
+
 (* ====================================================================== *)
 (* summary quoted by Props/C01.v                                            *)
 (* ====================================================================== *)
@@ -334,7 +357,9 @@ Theorem event_list_generated_agree :
   (forall L h, lower OutKey (gen_EventListHeap_peek_first L h) = Some (impl_peek_first L h) /\
                lower OutNat (gen_EventListHeap_size L h) = Some (impl_size L h) /\
                lower OutBool (gen_EventListHeap_is_empty L h) = Some (impl_is_empty L h) /\
-               lower out_none (gen_EventListHeap_clear L h) = Some (impl_clear L h)) /\
+               lower out_none (gen_EventListHeap_clear L h) = Some (impl_clear L h) /\
+               lower out_str (gen_EventListHeap___str__ L h) = Some (impl_str L h) /\
+               lower out_str (gen_EventListHeap___repr__ L h) = Some (impl_repr L h)) /\
   (forall L, (forall h, hpop L h = None -> h = []) ->
              forall h, lower OutKey (gen_EventListHeap_pop_first L h) = Some (impl_pop_first L h)) /\
   (forall L, lib_sane L -> forall h op, gen_step L h op = Some (impl_step L h op)) /\
@@ -351,7 +376,8 @@ Proof.
           [apply gen_EventListHeap_remove_eq | apply gen_EventListHeap_contains_eq]] |].
   split; [intros L h; split; [apply gen_EventListHeap_peek_first_eq | split;
           [apply gen_EventListHeap_size_eq | split;
-           [apply gen_EventListHeap_is_empty_eq | apply gen_EventListHeap_clear_eq]]] |].
+           [apply gen_EventListHeap_is_empty_eq | split; [apply gen_EventListHeap_clear_eq | split;
+            [apply gen_EventListHeap_str_eq | apply gen_EventListHeap_repr_eq]]]]] |].
   split; [exact gen_EventListHeap_pop_first_eq |].
   split; [exact gen_step_eq |].
   split; [exact gen_new_run_eq | exact heapq_sane].
